@@ -88,6 +88,12 @@ func (a *admDriver) send(t orcTx, open map[int]uint64, tag string) string {
 			a.env.Violate("C13.checktx", "checktx-changed-deliver-state", "CheckTx changed the deliver-side oracle state", a.hist)
 		}
 	}
+	nextBefore := map[uint64]uint64{}
+	for _, m := range t.Msgs {
+		if fi := int(m.Feeder) - 1; fi >= 0 && fi < len(s.Feeders) {
+			nextBefore[s.Feeders[fi].Token] = a.tokenNext(s.Feeders[fi].Token)
+		}
+	}
 	cls := a.sendTx(t, open)
 	a.env.Eval("C13.admit")
 	admitted := cls == "ok" || strings.HasPrefix(cls, "msg") || cls == "panic"
@@ -157,7 +163,7 @@ func (a *admDriver) send(t orcTx, open map[int]uint64, tag string) string {
 			for _, sc := range m.Srcs {
 				for _, p := range sc.Prices {
 					if fi >= 0 && fi < len(s.Feeders) && p.Dec != s.TokenDec[s.Feeders[fi].Token-1] {
-						a.env.Violate("C13.counted", "counted-bad-decimal", "counted a price with the wrong decimals", a.hist)
+						a.env.Violate("C13.counted", "counted-bad-decimal", fmt.Sprintf("counted a price with %d decimals for feeder %d, whose token %d has %d", p.Dec, m.Feeder, s.Feeders[fi].Token, s.TokenDec[s.Feeders[fi].Token-1]), a.hist)
 					}
 					if p.TsKind != 0 || p.Ts > now+5 {
 						a.env.Violate("C13.counted", "counted-bad-timestamp", fmt.Sprintf("counted a price stamped %d s ahead of the block (kind %d)", p.Ts-now, p.TsKind), a.hist)
@@ -165,6 +171,7 @@ func (a *admDriver) send(t orcTx, open map[int]uint64, tag string) string {
 				}
 			}
 			a.ruleMonitor(m, fi)
+			a.finalDecimalMonitor(fi, open, nextBefore)
 		} else if cls == "msg0:oracle:2" || cls == "msg0:oracle:4" {
 			// admitted but not counted: only the nonce moved
 			if a.coreObs() != beforeCore {
@@ -176,6 +183,27 @@ func (a *admDriver) send(t orcTx, open map[int]uint64, tag string) string {
 		}
 	}
 	return cls
+}
+
+// finalDecimalMonitor: a counted submission that completed the round wrote the round's price — in the unit of the
+// feeder's OWN token (the token whose decimals the counted submissions were required to carry). Judged on
+// the aligned path only (the id-mismatch path stores a copy of the previous round).
+func (a *admDriver) finalDecimalMonitor(fi int, open map[int]uint64, nextBefore map[uint64]uint64) {
+	s := a.spec
+	if fi < 0 || fi >= len(s.Feeders) {
+		return
+	}
+	f := s.Feeders[fi]
+	b, isOpen := open[fi]
+	rid, seen := nextBefore[f.Token]
+	if !isOpen || !seen || a.tokenNext(f.Token) != rid+1 || f.StartRound+(b-f.StartBase)/f.Interval != rid {
+		return
+	}
+	a.env.Eval("C13.counted")
+	if pr, found := a.c.App.OracleKeeper.GetPriceTRRoundID(a.ctx(), f.Token, rid); found && pr.Decimal != s.TokenDec[f.Token-1] {
+		a.env.Violate("C13.counted", "final-price-wrong-decimals", fmt.Sprintf("feeder %d (token %d, %d decimals): the counted submissions produced round %d with price %s recorded with %d decimals",
+			fi+1, f.Token, s.TokenDec[f.Token-1], rid, pr.Price, pr.Decimal), a.hist)
+	}
 }
 
 // repeatDetIDs rewrites the deterministic sources of m so that a source round occurs more than once.
@@ -534,6 +562,7 @@ func domOracleC13(env *Env) error {
 		directedC13Forged(env)
 		directedC13SignerInfos(env)
 		expirySweep(env)
+		directedDecimals(env)
 	}
 	if env.Int("dupdet", 0) == 1 {
 		directedDupDetID(env, "C13.counted")
@@ -557,6 +586,7 @@ func domOracleC13(env *Env) error {
 		o.emitSetup()
 		a := &admDriver{orcDriver: newOrcDriver(o, rng), quota: map[string]int{}}
 		a.wMon = "C13.counted"
+		env.Outcome(fmt.Sprintf("layout:feeder-ids-drifted=%v,other-decimals=%v", spec.drifted(), spec.driftedDecimals()))
 		nb := 12 + rng.Intn(maxBlocks)
 		for b := 0; b < nb; b++ {
 			if minute && rng.Chance(1, 5) {
